@@ -153,7 +153,7 @@ pub fn run(args: &Args, report: &mut Report) {
         }
     }
 
-    let (nv, ni) = if thorough { (1500, 1500) } else { (90, 90) };
+    let (nv, ni) = if thorough { (900, 900) } else { (90, 90) };
     let docs = docs::documents(&mut rng, nv, ni);
     let mut seen: HashSet<(u64, u64)> = HashSet::new();
     let mut driver_reqs: Vec<String> = vec![];
@@ -257,6 +257,10 @@ pub fn run(args: &Args, report: &mut Report) {
             report.mismatch(json!({"what": format!("prelude {kind}: implementation and Pos model differ"),
                 "input": {"text": text}, "impl": imp, "model": ans}));
         }
+    }
+    if session.timeouts_retried > 0 {
+        report.notes.push(format!("{} request(s) got no response within 30 s and were answered when sent again", session.timeouts_retried));
+        report.add("timeouts_retried", session.timeouts_retried);
     }
     report.notes.push(format!("{} position methods, {} range methods", POSITION_METHODS.len(), RANGE_METHODS.len()));
 }
